@@ -9,16 +9,14 @@ func vhTokEq(a, b token) bool {
 	return a.typ == b.typ && a.s == b.s && a.n == b.n
 }
 
-//verif:bounds every byte string of length 0..2 (thorough: 1..4): tokenize and Parse return without panic within the loop budget
+//verif:bounds every byte string of length 0..2 (thorough: 0..3): tokenize and Parse return without panic within the loop budget
 //verif:unwind 12
 //verif:shards 32
 func VH_C16_bytes_total() {
 	sh := verifShard(32)
 	n := sh / 8
-	if verifTier() > 0 {
-		n++ // thorough: lengths 1..4 (length 0 is covered by quick)
-	} else if n > 2 {
-		verifReach("end") // quick: lengths 0..2
+	if n > 2+verifTier() {
+		verifReach("end") // quick: lengths 0..2, thorough: 0..3
 		return
 	}
 	s := verifString(n)
@@ -158,9 +156,9 @@ func VH_C16_local_indexed() {
 
 // Locality of column definitions: 2..3 columns, each with its own optional
 // type, PRIMARY KEY (once), NOT NULL, UNIQUE, DEFAULT, COLLATE.
-//verif:bounds CREATE TABLE with 2 (thorough: 3) column definitions, each: type or none, NOT NULL, UNIQUE, DEFAULT <int>, COLLATE — every combination (PRIMARY KEY DESC on at most one column)
+//verif:bounds CREATE TABLE with 2 column definitions, each: type or none, NOT NULL, UNIQUE, DEFAULT <int>, COLLATE — every combination (PRIMARY KEY DESC on at most one column)
 func VH_C16_local_columns() {
-	k := 2 + verifTier()
+	k := 2
 	names := [3]string{"a", "b", "c"}
 	type want struct {
 		typ, coll       string
